@@ -7,6 +7,7 @@ property's monitor (search oracle).  Prints one @@RESULT@@ JSON line.
 """
 import sys, os, json, argparse, subprocess, random, time, importlib, glob
 
+LINE_EVERY = int(os.environ.get("VERIF_LINE_EVERY", "5"))
 HERE = os.path.dirname(os.path.abspath(__file__))
 VERIF = os.path.dirname(HERE)
 sys.path.insert(0, HERE)
@@ -31,6 +32,10 @@ def one(mod, runner, stats, p, kind, cseed, origin, known_patterns, use_model=Tr
     import detsched as det
     import lib
     chooser = det.make_chooser(kind, cseed)
+    if kind.endswith("+line"):
+        # interleavings finer than the machines' atomic steps (an executor-lock section is ONE model event): such runs are
+        # judged by the property's monitor only, the event-by-event correspondence is claimed at visible-operation granularity
+        use_model = False
     r, obs = mod.execute(p, chooser)
     lib.between()
     events, bad = mod.encode(r.log)
@@ -40,9 +45,14 @@ def one(mod, runner, stats, p, kind, cseed, origin, known_patterns, use_model=Tr
     tags = list(mod.describe(p)) + ["chooser=" + kind, "preempts>0" if r.preempts else "preempts=0"]
     stats.add(events, nt, sample, tags)
     stats.dist["yield_points"] += r.npoints
+    if kind.endswith("+line"):
+        stats.dist["line_mode_runs"] += 1
+        stats.dist["line_mode_switch_offers"] += getattr(r, "line_switches", 0)
     if r.exc is not None:
         stats.divergences.append(dict(case, kind="harness-exception", detail=getattr(r, "tb", repr(r.exc))[-600:]))
-    if bad:
+    if bad and kind.endswith("+line"):
+        pass      # the adapters' merging of lock sections into single model events does not apply to line-mode runs
+    elif bad:
         stats.divergences.append(dict(case, kind="unmodelled-operation", detail=[list(map(str, b)) for b in bad[:5]]))
     elif use_model and runner is not None and getattr(mod, "MACHINE", None):
         verdict = runner.ask(mod.MACHINE, events)
@@ -88,6 +98,9 @@ def run_shard(modname, tier, seed, n, shard, nshards, use_model):
         rng = random.Random(seed * 1000003 + i)
         p = mod.gen(rng)
         kind = ("random", "sticky", "pct")[i % 3]
+        if LINE_EVERY and i % LINE_EVERY == LINE_EVERY - 1 and getattr(mod, "LINE_PREEMPT", True):
+            # every LINE_EVERY-th scenario also offers the baton between LINES of library code (detsched line mode)
+            kind += "+line"
         r, obs, events = one(mod, runner, stats, p, kind, rng.randrange(1 << 30), "seeded:%d" % i, known_patterns, use_model)
         if getattr(r, "hang", False):
             # a scenario that blocks for real (outside the scheduler's view) costs its whole real-time limit: after a few
